@@ -233,6 +233,22 @@ func ruleC20_1(c *Ctx) {
 					args = args[1:]
 					wiring = []int{0, 1}
 				}
+				// every operation the path spells is delivered: whether the call is made must not depend on the values
+				// of its operands (only on the verb and on the operands having been scanned)
+				for _, l := range guardLits(dels[0].Guard) {
+					dep := false
+					sym.Walk(l, func(x *sym.Term) bool {
+						if x.Op == "index" && strings.Contains(x.Args[0].Key(), "havoc") {
+							if _, isC := x.Args[1].Int64(); isC {
+								dep = true
+							}
+						}
+						return !dep
+					})
+					if dep {
+						diffs = append(diffs, "the call is made only for some operand values: "+shortKey(l))
+					}
+				}
 				if len(args) != len(wiring) {
 					diffs = append(diffs, fmt.Sprintf("%d arguments, want %d", len(args), len(wiring)))
 				} else {
@@ -444,7 +460,7 @@ func isZeroConst(t *sym.Term) bool {
 // ruleC20_3: opacity registers and circles in the converter.
 func ruleC20_3(c *Ctx) {
 	R := c.R
-	R.Rule("C20.3", "converter: a path opacity other than 1 becomes a blend of transparent (0x7f) with the first palette colour (0x80) weighted by uint8(opacity*255), written once per distinct opacity at ADJ = number of opacities seen + 1 (a known opacity writes nothing); each circle is a move to (cx-r, cy) (starting the path if nothing started it) followed by two relative half-turn arcs (+2r, then -2r) with radii r, no rotation, flags (false,true); centre and radius are normalised like absolute/relative operands; the path is ended exactly once; the register of a known opacity is reused for the path data and the circles", 5)
+	R.Rule("C20.3", "converter: a path opacity other than 1 becomes a blend of transparent (0x7f) with the first palette colour (0x80) weighted by uint8(opacity*255), written once per distinct opacity at ADJ = number of opacities seen + 1 (a known opacity writes nothing); each circle is a move to (cx-r, cy) (starting the path if nothing started it) followed by two relative half-turn arcs (+2r, then -2r) with radii r, no rotation, flags (false,true); centre and radius are normalised like absolute/relative operands; the path is ended exactly once; the register of a known opacity is reused for the path data and the circles; only the first circle of a data-less path starts the path", 6)
 	destT := c.Named("", "Destination")
 	fn := c.Fn("mdicons", "ParsePath")
 	if fn == nil || destT == nil {
@@ -585,6 +601,35 @@ func ruleC20_3(c *Ctx) {
 	if len(starts) == 1 {
 		ok, why := adjOK(starts[0].Args[0])
 		R.Check(ok, key+"#circle-start", c.Pos(starts[0].Site), "a path made of circles only starts with the opacity's register (0, remembered, or new)", why)
+	}
+	// exactly one circle starts the path: the choice between StartPath and ClosePathAbsMoveTo is a loop-carried flag
+	// that is "no path data" before the first circle and false after any circle
+	if len(starts) == 1 && len(moves) == 1 && len(starts[0].Loops) == 1 {
+		okFlag, why := false, "the choice between starting the path and close-and-move is not a loop-carried flag"
+		for _, l := range guardLits(starts[0].Guard) {
+			if l.Op != "atom" || !strings.HasPrefix(l.Name, "phi#") {
+				continue
+			}
+			if !impliesLit([]*sym.Term{moves[0].Guard}, sym.Not(l)) {
+				continue
+			}
+			phi := phiOfAtom(fr, l)
+			if phi == nil {
+				continue
+			}
+			init, back := phiEdges(fr, phi)
+			okFlag = len(init) == 1 && len(back) > 0
+			why = ""
+			for _, b := range back {
+				if bv, isC := b.BoolVal(); !isC || bv {
+					okFlag, why = false, "after a circle the flag is "+shortKey(b)+", so a later circle can start the path again"
+				}
+			}
+			if okFlag && !(strings.Contains(init[0].Key(), "p.") || strings.Contains(init[0].Key(), "param:p")) {
+				okFlag, why = false, "the flag's initial value does not depend on the path data: "+shortKey(init[0])
+			}
+		}
+		R.Check(okFlag, key+"#circle-start-once", c.Pos(starts[0].Site), "only the first circle of a path without path data starts the path; every other circle closes and moves", why)
 	}
 	// circles
 	okCirc := len(starts) == 1 && len(moves) == 1 && len(arcs) == 2
